@@ -255,7 +255,9 @@ class Sequence:
             _operators.Jacobian(list(variables1)),
             _operators.Hessian(list(variables1), list(variables2)),
         ]
-        pairs = [(v1, v2) for v1 in variables1 for v2 in variables2 if v1 <= v2]
+        pairs = sorted(
+            {tuple(sorted((v1, v2))) for v1 in variables1 for v2 in variables2}
+        )
 
         def hessian(valuesdict=None, **values):
             values.update(valuesdict or {})
